@@ -146,3 +146,54 @@ fn historic_mul_mod_special_defect_is_found_by_c07_corpus() {
     assert!(sane > 100, "re-implementation does not track the real function");
     assert!(c.total_fails >= 1, "the C07 special-modulus corpus does not reach the historic defect");
 }
+
+/// The pre-fix flooring division (commit d559c78 repaired it) gave the remainder the sign of
+/// `lhs XOR rhs` instead of the divisor's. Emulated on the oracle side; the C14 corpus and the
+/// relation n = q*d + r must expose it at once, and the real function must pass on the same inputs.
+#[test]
+fn historic_floor_remainder_sign_defect_is_found_by_c14_corpus() {
+    use num_bigint::BigInt;
+    use num_traits::Signed;
+    let mut c = ctx("C14", "I128::checked_div_rem_floor [pre-fix emulation]");
+    let mut real_ok = 0u32;
+    for (n, d) in props::c14::sdiv_inputs(&mut c, 2, 2, true) {
+        if d.is_zero() {
+            continue;
+        }
+        let (q, r) = div_floor(&n, &d);
+        // the defect
+        let opposing = n.is_negative() != d.is_negative();
+        let r_buggy = if opposing { -r.abs() } else { r.abs() };
+        let x = bi::<2>(&n);
+        let y = NonZero::new(bi::<2>(&d)).unwrap();
+        let real = x.checked_div_rem_floor(&y);
+        if ib(&real.1) == r {
+            real_ok += 1;
+        }
+        if c.done() {
+            continue;
+        }
+        let got: Result<(BigInt, BigInt), String> = call(|| (q.clone(), r_buggy.clone()));
+        // the property's relation: n = q*d + r, and sign(r) in {0, sign(d)}
+        let holds = &q * &d + &r_buggy == n && (r_buggy.is_zero() || r_buggy.is_negative() == d.is_negative());
+        check!(c, got.map(|_| holds), true; n, d);
+    }
+    assert!(real_ok > 1000);
+    assert!(c.total_fails >= 1);
+}
+
+/// Usage errors and unknown properties.
+#[test]
+fn registry_is_complete() {
+    for p in props::PROPS {
+        let cs = props::cases(p).unwrap_or_else(|| panic!("{} missing", p));
+        assert!(!cs.is_empty(), "{} has no cases", p);
+        let mut names: Vec<&str> = cs.iter().map(|c| c.name.as_str()).collect();
+        let n = names.len();
+        names.sort();
+        names.dedup();
+        assert_eq!(n, names.len(), "{} has duplicate case names", p);
+    }
+    assert!(props::cases("C01").is_none());
+    assert!(props::cases("C21").is_none());
+}
